@@ -707,4 +707,174 @@ theorem innerOK_inner (cfg : Cfg) (P : Prog) (n : Nat) {σ : SM} (h : Inv0 idle 
       | brk τ' => exact ⟨this.1, by have := this.2; omega⟩
       | exhausted τ' => exact ⟨this.1, this.2.1, by have := this.2.2; omega⟩
 
+/-- what the end of a pass through the outer loop establishes -/
+def Settled (idle : Status) (ml : Nat) (k0 : Nat) (τ : SM) : Prop :=
+  Inv0 idle ml τ ∧ InitOK idle τ ∧ Q idle τ ∧ K idle τ ≤ k0
+
+theorem settled_takeTask (cfg : Cfg) (P : Prog) {σ : SM} (h : Inv0 idle ml σ) (hsf : σ.statefunc = none)
+    (hi : InitOK idle σ) : Settled idle ml (K idle σ) (takeTask cfg P σ) := by
+  unfold takeTask
+  cases hnt : σ.nextTask with
+  | none =>
+    simp only
+    exact ⟨h, hi, Or.inr (Or.inr hnt), Nat.le_refl _⟩
+  | some t =>
+    simp only
+    have hg := h.good
+    have hmc := h.mustCleanup; have hmi := h.mustInterrupt; have hcur := h.cur; have hpe := h.pending
+    have hint := h.interrupted; have hlp := h.j0 t hnt
+    simp only [ob] at hmc hmi hcur hpe hint hlp
+    -- the take
+    have h1 : Inv idle ml none false (startOf (some t)) (SM.log { σ with nextTask := none, reason := none } .take) ∧
+        (ob idle (SM.log { σ with nextTask := none, reason := none } .take)).fresh = (ob idle σ).fresh ∧
+        (ob idle (SM.log { σ with nextTask := none, reason := none } .take)).callsInCycle = (ob idle σ).callsInCycle ∧
+        (ob idle (SM.log { σ with nextTask := none, reason := none } .take)).lastPost = some t ∧
+        (ob idle (SM.log { σ with nextTask := none, reason := none } .take)).postedInCycle = (ob idle σ).postedInCycle := by
+      refine ⟨⟨?_, ?_, ?_, ?_, ?_, ?_, ?_, ?_, ?_, ?_, ?_⟩, ?_, ?_, ?_, ?_⟩ <;>
+        simp only [SM.log, ob, observe_snoc, Obs.step, always_snoc]
+      · refine ⟨hg, ?_⟩
+        simp [okAll, okInit, okCleanupOnce, okCleanupNotInterrupted, okStopInactive, okLastStart, okPickedUp, okBound,
+          okNoRaise, hmc, hmi, hcur, hsf, hpe, hnt]
+      · exact h.cur
+      · exact h.runCleanup
+      · rw [hint, hsf]; simp
+      · exact h.attrs
+      · exact h.mustCleanup
+      · exact h.mustInterrupt
+      · rw [hpe, hnt]
+      · intro r hr; cases hr
+      · intro _ _ _; exact hsf
+      · exact hlp
+    obtain ⟨h1, hf1, hc1, hl1, hp1⟩ := h1
+    generalize hσ1 : SM.log { σ with nextTask := none, reason := none } .take = σ1 at h1 hf1 hc1 hl1 hp1 ⊢
+    have hsf1 : σ1.statefunc = none := by rw [← hσ1]; exact hsf
+    have hnt1 : σ1.nextTask = none := by rw [← hσ1]; rfl
+    have hre1 : σ1.reason = none := by rw [← hσ1]; rfl
+    have hin1 : σ1.init = σ.init := by rw [← hσ1]; rfl
+    cases t with
+    | stop st =>
+      simp only [startOf] at h1 ⊢
+      refine ⟨h1, ?_, Or.inr (Or.inr hnt1), by unfold K; rw [hc1]; exact Nat.le_refl _⟩
+      unfold InitOK; rw [hf1, hin1]; exact hi
+    | start s cl kw ovr =>
+      simp only [startOf] at h1 ⊢
+      obtain ⟨h2, n2⟩ := inv_newState cfg P (some s) h1
+        (by intro s' cl' kw' ovr' hh; simp at hh; rw [hh.1])
+        (fun _ => Or.inr ⟨hre1, Or.inr (by intro st hh; rw [hl1] at hh; cases hh)⟩)
+      generalize newState cfg P σ1 (some s) = σ2 at h2 n2 ⊢
+      have hg2 := h2.good
+      have hmc2 := h2.mustCleanup; have hmi2 := h2.mustInterrupt; have htk2 := h2.taken; have hat2 := h2.attrs
+      have hle2 := n2.lastEnter
+      simp only [ob] at hmc2 hmi2 htk2 hat2 hle2
+      refine ⟨⟨?_, ?_, ?_, ?_, ?_, ?_, ?_, ?_, ?_, ?_, ?_⟩, ?_, ?_, ?_⟩
+      all_goals simp only [InitOK, Q, K, SM.log, ob, observe_snoc, Obs.step, always_snoc]
+      · refine ⟨hg2, ?_⟩
+        simp [okAll, okInit, okCleanupOnce, okCleanupNotInterrupted, okStopInactive, okLastStart, okPickedUp, okBound,
+          okNoRaise, hmc2, hmi2, htk2, hat2, hle2]
+      · exact h2.cur
+      · exact h2.interrupted
+      · exact h2.pending
+      · exact h2.mustCleanup
+      · exact h2.mustInterrupt
+      · exact h2.j0
+      · exact h2.j1
+      · rw [n2.init]; exact n2.fresh
+      · rcases n2.task with ⟨t1, _, t3⟩ | ⟨_, t2⟩
+        · right; right; rw [t1]; exact hnt1
+        · left; exact t2
+      · have := n2.calls; simp only [ob] at this hc1; rw [this, hc1]; exact Nat.le_refl _
+
+theorem settled_pickup (cfg : Cfg) (P : Prog) {σ : SM} (h : Inv0 idle ml σ) (hsf : σ.statefunc = none)
+    (hi : InitOK idle σ) : Settled idle ml (K idle σ) (pickup cfg P σ) := by
+  obtain ⟨h1, s1⟩ := inv_absorb cfg P h
+  have hi1 := hi.of_same s1
+  unfold pickup
+  simp only
+  generalize absorb cfg P σ = τ at h1 s1 hi1 ⊢
+  have hk1 : K idle τ = K idle σ := s1.calls
+  rw [← hk1]
+  split
+  · exact settled_takeTask cfg P h1 (by rw [s1.statefunc]; exact hsf) hi1
+  · rename_i hc
+    refine ⟨h1, hi1, Or.inr (Or.inr ?_), Nat.le_refl _⟩
+    cases hn : τ.nextTask with
+    | none => rfl
+    | some t => simp [hn] at hc
+
+theorem inv_finishRun (cfg : Cfg) (P : Prog) {σ : SM} (h : Inv0 idle ml σ) :
+    Inv0 idle ml (finishRun cfg P σ) ∧ (finishRun cfg P σ).statefunc = none ∧ InitOK idle (finishRun cfg P σ) ∧
+      K idle (finishRun cfg P σ) = K idle σ := by
+  unfold finishRun
+  obtain ⟨h1, n1⟩ := inv_newState cfg P none h (by intro _ _ _ _ hh; cases hh) (fun hh => by cases hh)
+  refine ⟨h1, n1.statefunc, ?_, n1.calls⟩
+  unfold InitOK; rw [n1.fresh]; exact n1.init.symm
+
+theorem settled_finish_pickup (cfg : Cfg) (P : Prog) {σ : SM} (h : Inv0 idle ml σ) :
+    Settled idle ml (K idle σ) (pickup cfg P (finishRun cfg P σ)) := by
+  obtain ⟨h1, hs, hi, hk⟩ := inv_finishRun cfg P h
+  rw [← hk]; exact settled_pickup cfg P h1 hs hi
+
+theorem settled_chainLimit (cfg : Cfg) (P : Prog) {σ : SM} (h : Inv0 idle ml σ) (hsf : σ.statefunc.isSome = true) :
+    Settled idle ml (K idle σ) (chainLimit cfg P σ) := by
+  obtain ⟨h1, d1⟩ := inv_doCleanup cfg P .error false h (fun hh => by cases hh) hsf (fun _ => rfl)
+  unfold chainLimit
+  simp only
+  generalize doCleanup cfg P σ .error = r at h1 d1 ⊢
+  have hk1 : K idle r.σ = K idle σ := d1.calls
+  rw [← hk1]
+  split
+  · rename_i s _
+    obtain ⟨h2, n2⟩ := inv_newState cfg P (some s) h1 (by intro _ _ _ _ hh; cases hh)
+      (fun _ => Or.inl (by rw [d1.statefunc]; exact hsf))
+    refine ⟨h2, ?_, Or.inr (Or.inl ⟨by rw [n2.reason]; exact d1.reason, by rw [n2.statefunc]; rfl⟩),
+      by unfold K; rw [n2.calls]; exact Nat.le_refl _⟩
+    unfold InitOK; rw [n2.fresh]; exact n2.init.symm
+  · exact settled_finish_pickup cfg P h1
+
+def OuterOK (idle : Status) (ml : Nat) (k0 : Nat) : Outer → Prop
+  | .ret τ => Settled idle ml k0 τ
+  | .next τ => Settled idle ml k0 τ
+
+theorem Settled.mono {k0 k1 : Nat} {τ : SM} (h : Settled idle ml k0 τ) (hk : k0 ≤ k1) : Settled idle ml k1 τ :=
+  ⟨h.1, h.2.1, h.2.2.1, Nat.le_trans h.2.2.2 hk⟩
+
+theorem outerOK_outerBody (cfg : Cfg) (P : Prog) {σ : SM} (hml : cfg.maxloops = ml) (h : Inv0 idle ml σ)
+    (hi : InitOK idle σ) (hk : K idle σ + ml ≤ 2 * ml) :
+    OuterOK idle ml (K idle σ + ml) (outerBody cfg P σ) := by
+  unfold outerBody
+  cases hsf : σ.statefunc with
+  | none =>
+    simp only
+    exact (settled_pickup cfg P h hsf hi).mono (Nat.le_add_right _ _)
+  | some s =>
+    simp only
+    have h1 := innerOK_inner cfg P ml h (by simp [hsf]) hi hk
+    rw [hml]
+    revert h1
+    generalize inner cfg P ml σ = r
+    intro h1
+    cases r with
+    | ret τ => exact h1
+    | brk τ => exact (settled_finish_pickup cfg P h1.1).mono h1.2
+    | exhausted τ => exact (settled_chainLimit cfg P h1.1 h1.2.1).mono h1.2.2
+
+theorem settled_outer (cfg : Cfg) (P : Prog) (hml : cfg.maxloops = ml) (n : Nat) {σ : SM} (h : Inv0 idle ml σ)
+    (hi : InitOK idle σ) (hk : K idle σ + n * ml ≤ 2 * ml) (hq : n = 0 → Q idle σ) :
+    Settled idle ml (2 * ml) (outer cfg P n σ) := by
+  induction n generalizing σ with
+  | zero =>
+    unfold outer
+    exact ⟨h, hi, hq rfl, by simp only [Nat.zero_mul, Nat.add_zero] at hk; exact hk⟩
+  | succ n ih =>
+    have h1 := outerOK_outerBody cfg P hml h hi (by rw [Nat.add_mul] at hk; omega)
+    unfold outer
+    revert h1
+    generalize outerBody cfg P σ = r
+    intro h1
+    cases r with
+    | ret τ => exact Settled.mono h1 (by rw [Nat.add_mul] at hk; omega)
+    | next τ =>
+      simp only
+      exact ih h1.1 h1.2.1 (by have := h1.2.2.2; rw [Nat.add_mul] at hk; omega) (fun _ => h1.2.2.1)
+
 end Frappy.SM
